@@ -562,6 +562,9 @@ func cmdC15(args []string) {
 			a, b, kind, _ = genPair(g, 0) // identity
 		}
 		aj, bj := a.JSON(), b.JSON()
+		if i < len(c15Crafted) {
+			aj, bj, kind = []byte(c15Crafted[i][0]), []byte(c15Crafted[i][1]), "crafted"
+		}
 		_ = os.WriteFile(oldP, aj, 0o644)
 		_ = os.WriteFile(newP, bj, 0o644)
 		js := pool.CLI(oldP, newP, "json", false, "", dst)
@@ -582,7 +585,25 @@ func cmdC15(args []string) {
 				subset = append(subset, d)
 			}
 		}
-		for which, ig := range map[string]diff.SpecDifferences{"none": nil, "all": all, "subset": subset} {
+		sets := map[string]diff.SpecDifferences{"none": nil, "all": all, "subset": subset}
+		if (i%3 == 0 || i < len(c15Crafted)) && len(all) >= 2 && len(all) <= 10 {
+			// every single entry on its own: an ignore entry must remove its own line and no other (entries that differ only
+			// in how deep their node is, or only in their info text, are different entries)
+			for k := range all {
+				sets[fmt.Sprintf("single-%02d", k)] = diff.SpecDifferences{all[k]}
+			}
+		}
+		whichs := make([]string, 0, len(sets))
+		for w := range sets {
+			whichs = append(whichs, w)
+		}
+		sort.Strings(whichs)
+		for _, which := range whichs {
+			ig := sets[which]
+			subset := subset
+			if strings.HasPrefix(which, "single-") {
+				subset = ig
+			}
 			ignore := ""
 			igText := ""
 			if which != "none" {
@@ -618,7 +639,11 @@ func cmdC15(args []string) {
 				seen[h] = true
 				rep.DistinctNontrivial++
 			}
-			rep.Coverage["ignore:"+which]++
+			if strings.HasPrefix(which, "single-") {
+				rep.Coverage["ignore:single"]++
+			} else {
+				rep.Coverage["ignore:"+which]++
+			}
 			if rj.Panic != "" || rt.Panic != "" || rb.Panic != "" {
 				addV("c15/panic", "swagger diff panicked in report mode", aj, bj, igText, []string{rj.Panic, rt.Panic, rb.Panic})
 				continue
@@ -714,3 +739,10 @@ func cmdC15(args []string) {
 	rep.write(filepath.Join(*out, "props.json"))
 	fmt.Printf("c15: %d evaluations, %d distinct non-trivial, %d violations, %d model cases\n", rep.Evaluations, rep.DistinctNontrivial, len(rep.Violations), ncase)
 }
+
+// c15Crafted: pairs whose reports hold entries that agree in everything but the depth of their node (a property and a
+// property of it both become required; a description added to an operation and to one of its parameters)
+var c15Crafted = [][2]string{{
+	`{"swagger":"2.0","info":{"title":"t","version":"1"},"paths":{"/pets":{"post":{"operationId":"addPet","parameters":[{"name":"limit","in":"query","type":"integer"},{"name":"pet","in":"body","schema":{"type":"object","properties":{"owner":{"type":"object","properties":{"email":{"type":"string"},"address":{"type":"object","properties":{"zip":{"type":"string"}}}}},"name":{"type":"string"}}}}],"responses":{"200":{"description":"ok"}}}}}}`,
+	`{"swagger":"2.0","info":{"title":"t","version":"1"},"paths":{"/pets":{"post":{"operationId":"addPet","description":"adds a pet","parameters":[{"name":"limit","in":"query","type":"integer","description":"how many"},{"name":"pet","in":"body","schema":{"type":"object","required":["owner"],"properties":{"owner":{"type":"object","required":["email","address"],"properties":{"email":{"type":"string"},"address":{"type":"object","required":["zip"],"properties":{"zip":{"type":"string"}}}}},"name":{"type":"string"}}}}],"responses":{"200":{"description":"ok"}}}}}}`,
+}}
